@@ -181,6 +181,11 @@ def base_beam(rng, bt: str, n: int = 5, energy: Optional[float] = None) -> dict:
     En = E.energy(rng) if energy is None else energy
     if bt == "ParticleBeam":
         P = P[:n]
+        if rng.random() < 0.3:
+            # a particle flying exactly along the axis (px = py = 0) — where norms of the transverse momentum have a
+            # singular derivative although the tracked map is smooth there (positions stay generic: x = 0 is a cell
+            # boundary of the space-charge grid, where the kick genuinely has a kink)
+            P[0, 1] = P[0, 3] = 0.0
         return {"type": bt, "particles": P, "energy": np.float64(En), "charges": np.full(n, 1e-10 / n)}
     mu, C = moments(P)
     return {"type": bt, "mu": mu, "cov": C, "energy": np.float64(En)}
